@@ -280,6 +280,50 @@ def run_case(inst, evs, policy, disp, outsubs=None):
                        dispose_at=disp, outputs=bool(inst.get("outputs")), sub_outputs=outsubs, horizon=horizon)
 
 
+def make_case(T, seed, name, ci, p_dispose=0.2):
+    """the ci-th case of operator `name` under check seed `seed` (re-generated identically by --replay)"""
+    import random
+    rng = random.Random(f"{seed}|{name}|{ci}")
+    inst = T[name](rng)
+    nsrc = inst["n_static"] + inst.get("dynamic", 0)
+    evs = gen_timeline(rng, nsrc, inst.get("grid", ()))
+    policy = k2w.gen_policy(rng)
+    if inst["ty_b"] != "unit":
+        policy = k2w.ALL_IMM
+    disp = None
+    outsubs = None
+    if inst.get("outputs"):
+        outsubs = gen_output_subs(rng)
+    elif rng.random() < p_dispose and evs:
+        disp = rng.choice(evs)[0] + rng.choice([0, 0, 5])
+    return inst, evs, policy, disp, outsubs
+
+
+def replay_case(path):
+    """re-run the case recorded in a replay file on the current tree; -> (violation message or None, text)"""
+    import json
+    d = json.load(open(path))
+    rc = d.get("replay_case")
+    if not rc:
+        return "no replay_case in file", json.dumps(d, indent=1)
+    T = table()
+    inst, evs, policy, disp, outsubs = make_case(T, rc["seed"], rc["name"], rc["index"])
+    res = run_case(inst, evs, policy, disp, outsubs)
+    res["dispose_at"] = disp
+    v = oracle(rc["name"], inst, res)
+    if res["escapes"]:
+        v = v or f"exception escaped into the emitter: {[repr(e) for _, e in res['escapes']]}"
+    lines = [f"operator      : {rc['name']}   (case {rc['index']} of seed {rc['seed']})",
+             f"instance      : {inst['coq']}",
+             f"source events : {evs!r}",
+             f"policy        : {policy.describe()}",
+             f"outer dispose : {disp}   output subscriptions: {outsubs}",
+             f"inputs        : {k2w.g_inputs(res['inputs'], enc_val)}",
+             f"observed      : {k2w.g_trace(res, inst['enc_w'], inst['enc_b'], enc_key)}",
+             f"oracle        : {v or 'satisfied'}"]
+    return v, "\n".join(lines)
+
+
 def run_ops(chk, pid, names, ncase=None, p_dispose=0.2):
     import lib
     T = table()
@@ -293,18 +337,8 @@ def run_ops(chk, pid, names, ncase=None, p_dispose=0.2):
             "outer_ended_while_window_subscriber_live": 0}
     for name in names:
         for ci in range(ncase):
-            inst = T[name](chk.rng)
-            nsrc = inst["n_static"] + inst.get("dynamic", 0)
-            evs = gen_timeline(chk.rng, nsrc, inst.get("grid", ()))
-            policy = k2w.gen_policy(chk.rng)
-            if inst["ty_b"] != "unit":
-                policy = k2w.ALL_IMM
-            disp = None
-            outsubs = None
-            if inst.get("outputs"):
-                outsubs = gen_output_subs(chk.rng)
-            elif chk.rng.random() < p_dispose and evs:
-                disp = chk.rng.choice(evs)[0] + chk.rng.choice([0, 0, 5])
+            inst, evs, policy, disp, outsubs = make_case(T, chk.seed, name, ci)
+            if disp is not None:
                 hist["with_outer_dispose"] += 1
             res = run_case(inst, evs, policy, disp, outsubs)
             chk.cov["evaluations"] += 1
@@ -332,6 +366,7 @@ def run_ops(chk, pid, names, ncase=None, p_dispose=0.2):
                                "window subscription policy (per window g)": policy.describe(),
                                "outer dispose_at": disp, "output subscriptions": outsubs,
                                "inputs (now, event)": gi, "observed trace": gt, "what": v,
+                               "replay_case": {"name": name, "seed": chk.seed, "index": ci},
                                "how": "harness/win_table.py: run_case(inst, events, policy, dispose_at) -> "
                                       "k2w.run_win(...) with the operator instance named in 'spec'"},
                               size=len(res["inputs"]))
